@@ -412,6 +412,10 @@ func (l *Lexer) skipComment() {
 
 // Consume all tokens until we've had the close of a multi-line comment
 func (l *Lexer) skipMultiLineComment() {
+	// Our current position is the "/" of the opening "/*". Skip both characters:
+	// the "*" of the opening is not the "*" of a closing "*/"
+	l.readChar()
+	l.readChar()
 	found := false
 	for !found {
 		// break at the end of our input.
